@@ -7,6 +7,7 @@ Stateful line protocol for Model/Shuffle.lean (ids are object numbers handed out
   init TRACK [[id,i,j,[[bid,stat],..]],..] [[id,[[bid,stat],..]],..]   core children, sfp children
   swap ID1 ID2 | cascade [ID,..] | dnew [id,[[bid,stat],..]] OUT | dsfp IN OUT
   remove ID T/F | add [id,[[bid,stat],..]] I J
+  sfpnext NC [[i,j],..]    -> [i,j] the pool cell SpentFuelPool._getNextLocation picks (stateless)
 Response: canonical state, or `reject` (state unchanged) where the real call raises; `add` that raises prints the
 state it leaves behind followed by ` raised`.
 -/
@@ -64,6 +65,15 @@ def stepLine (d : DS) : List String → DS × String
       let d' : DS := ⟨st, ks.map (·.2), all.map (·.id), all.flatMap (fun a => a.blocks.map (·.bid))⟩
       (d', showDS d')
     | _, _, _ => (d, "bad-op")
+  | ["sfpnext", nc, filled] =>
+    match parseNat? nc, parseList? (fun w => do
+        match (← splitTop w) with
+        | [i, j] => some ((← parseInt? i), (← parseInt? j))
+        | _ => none) filled with
+    | some nc, some fl => (d, match sfpNext nc fl with
+        | some c => "[" ++ toString c.1 ++ "," ++ toString c.2 ++ "]"
+        | none => "none")
+    | _, _ => (d, "bad-op")
   | ["swap", a, b] => match parseNat? a, parseNat? b with
     | some a, some b => upd d (swap d.st a b)
     | _, _ => (d, "bad-op")
